@@ -61,6 +61,13 @@ def main():
     for case in pl['cases']:
         r = {}
         try:
+            # other configurations used EARLIER in the same process (state shared between lineage / locus configurations,
+            # models or state-space classes must not leak into this one)
+            for ps in case.get('prelude', []):
+                pc = build.coalescent(ps)
+                for w_ in case['spaces']:
+                    pss = pc.lineage_counting_state_space if w_ == 'lc' else pc.block_counting_state_space
+                    _ = pss.alpha, pss.S
             coal = build.coalescent(case['spec'])
             times = case.get('epoch_times', [0.0])
             for which in case['spaces']:
